@@ -55,6 +55,9 @@ def main():
         else:
             rc, out = sh([exe], timeout=1200); res['demo_clean_exit'] = rc; res['demo_clean_tail'] = out[-300:]
         rc, out = sh(['git', '-C', wt, 'apply', os.path.join(seed, 'patch.diff')])
+        if rc:      # the seed was written against an older HEAD (before later fix: commits): three-way merge
+            rc, out = sh(['git', '-C', wt, 'apply', '--3way', os.path.join(seed, 'patch.diff')]); res['apply_3way'] = True
+            sh(['git', '-C', wt, 'reset', '-q'])
         if rc: res['apply'] = 'failed: ' + out[-500:]; raise SystemExit
         res['apply'] = 'ok'; res['files_changed'] = sh(['git', '-C', wt, 'diff', '--stat'])[1].strip().split('\n')
         rc, out = sh(cmd)
